@@ -25,7 +25,7 @@ impl Property for P {
     }
     fn cases(tier: Tier) -> u64 {
         match tier {
-            Tier::Quick => 30_000,
+            Tier::Quick => 60_000,
             Tier::Thorough => 1_500_000,
         }
     }
